@@ -90,7 +90,8 @@ type Lin struct {
 	Summary *Summaries
 	depth   int
 	// Trace of the last successful proof (for evidence)
-	Last string
+	Last        string
+	lastPattern *syntax.Regexp
 }
 
 // Summaries are verified post-conditions of library functions used as axioms at their call sites.
@@ -365,10 +366,96 @@ func (l *Lin) build(at ssa.Instruction, extra []edgeCond, seeds []Term) *system 
 		s.id(t)
 	}
 	// axioms of every term (terms introduced by axioms get theirs too)
-	for i := 0; i < len(s.terms) && i < 200; i++ {
-		l.axioms(s, s.terms[i], at)
+	axDone := 0
+	applyAxioms := func() bool {
+		grew := axDone < len(s.terms)
+		for ; axDone < len(s.terms) && axDone < 200; axDone++ {
+			l.axioms(s, s.terms[axDone], at)
+		}
+		return grew
 	}
+	applyAxioms()
 	s.close()
+	// operands of difference / min / max terms join the system (with their own axioms) before the derived-bound passes
+	for i := 0; i < len(s.terms) && i < 200; i++ {
+		t := s.terms[i]
+		if t.K != TVal || t.V == nil {
+			continue
+		}
+		switch v := t.V.(type) {
+		case *ssa.BinOp:
+			if v.Op == token.SUB && isIntOrLen(v) {
+				if _, isC := v.X.(*ssa.Const); !isC {
+					if _, isC2 := v.Y.(*ssa.Const); !isC2 {
+						xt, _ := l.Expr(v.X)
+						yt, _ := l.Expr(v.Y)
+						s.id(xt)
+						s.id(yt)
+					}
+				}
+			}
+		case *ssa.Call:
+			if n := BuiltinName(&v.Call); n == "min" || n == "max" {
+				for _, a := range v.Call.Args {
+					at2, _ := l.Expr(a)
+					s.id(at2)
+				}
+			}
+		}
+	}
+	if applyAxioms() {
+		s.close()
+	}
+	// min(a, b, ..) >= the smallest lower bound of its operands; max(..) <= the largest upper bound
+	for i := 0; i < len(s.terms); i++ {
+		t := s.terms[i]
+		if t.K != TVal || t.V == nil {
+			continue
+		}
+		call, ok := t.V.(*ssa.Call)
+		if !ok {
+			continue
+		}
+		name := BuiltinName(&call.Call)
+		if name != "min" && name != "max" {
+			continue
+		}
+		zi := s.id(Zero)
+		bound, have := int64(0), true
+		for n, a := range call.Call.Args {
+			at2, off := l.Expr(a)
+			ai := s.id(at2)
+			var b int64
+			if name == "min" {
+				if s.d[zi][ai] >= inf {
+					have = false
+					break
+				}
+				b = s.d[zi][ai] - off // 0 - a' <= d  =>  a >= off - d ; keep as "0 - a <= b"
+			} else {
+				if s.d[ai][zi] >= inf {
+					have = false
+					break
+				}
+				b = s.d[ai][zi] + off
+			}
+			if n == 0 || b > bound {
+				bound = b
+			}
+		}
+		if !have || len(call.Call.Args) == 0 {
+			continue
+		}
+		changed := false
+		if name == "min" {
+			changed = s.add(fact{Zero, t, bound, "min lower bound"})
+		} else {
+			changed = s.add(fact{t, Zero, bound, "max upper bound"})
+		}
+		if changed {
+			s.close()
+		}
+	}
 	// difference terms: t = a - b (two non-constant, provably non-negative operands, so the subtraction cannot wrap)
 	// inherits the bounds the system knows for a - b, and t <= a
 	for round := 0; round < 2; round++ {
@@ -421,56 +508,6 @@ func (l *Lin) build(at ssa.Instruction, extra []edgeCond, seeds []Term) *system 
 			break
 		}
 		s.close()
-	}
-	// min(a, b, ..) >= the smallest lower bound of its operands; max(..) <= the largest upper bound
-	for i := 0; i < len(s.terms); i++ {
-		t := s.terms[i]
-		if t.K != TVal || t.V == nil {
-			continue
-		}
-		call, ok := t.V.(*ssa.Call)
-		if !ok {
-			continue
-		}
-		name := BuiltinName(&call.Call)
-		if name != "min" && name != "max" {
-			continue
-		}
-		zi := s.id(Zero)
-		bound, have := int64(0), true
-		for n, a := range call.Call.Args {
-			at2, off := l.Expr(a)
-			ai := s.id(at2)
-			var b int64
-			if name == "min" {
-				if s.d[zi][ai] >= inf {
-					have = false
-					break
-				}
-				b = s.d[zi][ai] - off // 0 - a' <= d  =>  a >= off - d ; keep as "0 - a <= b"
-			} else {
-				if s.d[ai][zi] >= inf {
-					have = false
-					break
-				}
-				b = s.d[ai][zi] + off
-			}
-			if n == 0 || b > bound {
-				bound = b
-			}
-		}
-		if !have || len(call.Call.Args) == 0 {
-			continue
-		}
-		changed := false
-		if name == "min" {
-			changed = s.add(fact{Zero, t, bound, "min lower bound"})
-		} else {
-			changed = s.add(fact{t, Zero, bound, "max upper bound"})
-		}
-		if changed {
-			s.close()
-		}
 	}
 	// disequalities: x - y != k together with x - y <= k gives x - y <= k-1 (and symmetrically)
 	for round := 0; round < 3; round++ {
@@ -705,6 +742,10 @@ func (l *Lin) axioms(s *system, t Term, at ssa.Instruction) {
 			if l.onNilEdge(call, 1, at) {
 				s.add(fact{buf, t, 0, "ReadFull: n == len(buf) when err == nil"})
 			}
+		case FuncIs(callee, "strconv", "Atoi") && v.Index == 0 && t.K == TVal:
+			if l.digitsOnlyGroup(call.Call.Args[0]) {
+				s.add(fact{Zero, t, 0, "strconv.Atoi of a digits-only capture group (or \"\"): >= 0 (saturates on range errors)"})
+			}
 		case l.Summary != nil && callee != nil && callee == l.Summary.GetBytesLen && v.Index == 0 && t.K == TLen:
 			if l.onNilEdge(call, 1, at) {
 				a, off := l.Expr(call.Call.Args[1])
@@ -881,7 +922,65 @@ func (l *Lin) submatchLen(x ssa.Value) (int, bool) {
 	if err != nil {
 		return 0, false
 	}
+	l.lastPattern = re
 	return 1 + re.MaxCap(), true
+}
+
+// digitsOnlyGroup reports whether string value v is element k of a match produced by FindAllStringSubmatch of a
+// write-once regular expression whose capture group k can only match decimal digits (or stay unmatched, i.e. "").
+func (l *Lin) digitsOnlyGroup(v ssa.Value) bool {
+	u, ok := v.(*ssa.UnOp)
+	if !ok || u.Op != token.MUL {
+		return false
+	}
+	ia, ok := u.X.(*ssa.IndexAddr)
+	if !ok {
+		return false
+	}
+	k, ok := constIntOf(ia.Index)
+	if !ok || k < 1 {
+		return false
+	}
+	// the match: an element of the [][]string result (range value or indexed load)
+	var matches ssa.Value
+	switch m := ia.X.(type) {
+	case *ssa.UnOp:
+		if ia2, ok := m.X.(*ssa.IndexAddr); ok {
+			matches = ia2.X
+		}
+	case *ssa.Extract: // range over the matches: extract #2 of next(range)
+		if nx, ok := m.Tuple.(*ssa.Next); ok {
+			if rg, ok := nx.Iter.(*ssa.Range); ok {
+				matches = rg.X
+			}
+		}
+	}
+	if matches == nil {
+		return false
+	}
+	if _, ok := l.submatchLen(matches); !ok || l.lastPattern == nil {
+		return false
+	}
+	var group *syntax.Regexp
+	var find func(re *syntax.Regexp)
+	find = func(re *syntax.Regexp) {
+		if re.Op == syntax.OpCapture && re.Cap == int(k) {
+			group = re
+		}
+		for _, sub := range re.Sub {
+			find(sub)
+		}
+	}
+	find(l.lastPattern)
+	if group == nil || len(group.Sub) != 1 {
+		return false
+	}
+	body := group.Sub[0]
+	if body.Op != syntax.OpPlus && body.Op != syntax.OpStar && body.Op != syntax.OpRepeat {
+		return false
+	}
+	cc := body.Sub[0]
+	return cc.Op == syntax.OpCharClass && len(cc.Rune) == 2 && cc.Rune[0] == '0' && cc.Rune[1] == '9'
 }
 
 // ---------- queries
@@ -1366,6 +1465,27 @@ func (l *Lin) ImportCallContext(caller *Lin, call ssa.CallInstruction) int {
 	sys := caller.build(call, nil, seeds)
 	n := 0
 	zi := sys.id(Zero)
+	// goal-directed bounds against the constants that matter in this code base (the protocol's 16-bit counts, the
+	// message-size default): these use callee return bounds and merges, which the closed system alone does not
+	for _, x := range ps {
+		if x.cal.K != TVal || x.cal.V == nil {
+			continue
+		}
+		for _, ub := range []int64{0, 255, 65535, 1 << 24} {
+			if caller.Prove(call, x.ct, Zero, ub-x.co) {
+				l.Assume = append(l.Assume, fact{x.cal, Zero, ub, "call-site context (proved at the call)"})
+				n++
+				break
+			}
+		}
+		for _, lb := range []int64{1, 0} {
+			if caller.Prove(call, Zero, x.ct, x.co-lb) {
+				l.Assume = append(l.Assume, fact{Zero, x.cal, -lb, "call-site context (proved at the call)"})
+				n++
+				break
+			}
+		}
+	}
 	for _, x := range ps {
 		xi := sys.id(x.ct)
 		// against zero
